@@ -78,7 +78,22 @@ def has_nonjson(v):
     return False
 
 
+_F23 = {"present": None}
+
+
+def f23_present():
+    """the model's switch for finding F23, set by running the witness on the implementation:
+    True = a datetime and its str() text share a memo key (the tree as it is)"""
+    if _F23["present"] is None:
+        from rbacx.core.policy import _ctx_hash
+        t = _dt.datetime(2020, 1, 1, tzinfo=_dt.timezone.utc)
+        _F23["present"] = _ctx_hash({"t": t}) == _ctx_hash({"t": str(t)})
+    return _F23["present"]
+
+
 def dates_of(*vals):
+    if not f23_present():
+        return None          # the model keeps datetimes apart from strings
     out = {}
 
     def walk(v):
@@ -1049,26 +1064,33 @@ def enumerated(chk):
 
 
 def rand_tree(rng, depth, leaves):
-    if depth <= 0 or rng.random() < 0.3:
+    if depth <= 0 or rng.random() < 0.2:
         r = rng.random()
-        if r < 0.8:
+        if r < 0.85:
             return copy.deepcopy(rng.choice(leaves))
         return rng.choice([True, False, {"==": [{"attr": "action"}, "read"]}, {"==": [1, 2]}, {"<": ["a", 1]}])
     op = rng.choice(["and", "or", "not", "and", "or"])
     if op == "not":
         return {"not": rand_tree(rng, depth - 1, leaves)}
-    return {op: [rand_tree(rng, depth - 1, leaves) for _ in range(rng.choice([1, 2, 2, 3]))]}
+    return {op: [rand_tree(rng, depth - 1, leaves) for _ in range(rng.choice([2, 2, 3, 4]))]}
+
+
+RAND_CTX = ["<absent>", "<absent>", {}, {"ip": "1.2.3.4"}, {"new": 1}, {"z": 2, "ip": "9.9.9.9"}, {"ip": "10.0.0.1"}, {"z": 1, "ip": "10.0.0.1"},
+            {"new": 1.0}, {"new": True}, {"k": {"b": 1, "a": 2}}, {"k": {"a": 2, "b": 1}}]
 
 
 def rand_leaves(rng):
     out = []
-    for _ in range(rng.choice([2, 3, 4])):
-        if rng.random() < 0.3:
+    for _ in range(rng.choice([2, 3, 4, 5, 6])):
+        r = rng.random()
+        if r < 0.25:
             out.append({"rel": rng.choice(["viewer", "editor", "owner"])})
+        elif r < 0.6:
+            # the same triple as the short form, told apart (or not) by the context only
+            out.append(node(rng.choice(["viewer", "editor"]), ctx=rng.choice(RAND_CTX)))
         else:
             out.append(node(rng.choice(["viewer", "editor"]), subject=rng.choice(["<absent>"] + SUBJ_OVR[1:10]),
-                            resource=rng.choice(["<absent>"] + RES_OVR[1:8]),
-                            ctx=rng.choice(["<absent>", {}, {"ip": "1.2.3.4"}, {"new": 1}, {"z": 2, "ip": "9.9.9.9"}])))
+                            resource=rng.choice(["<absent>"] + RES_OVR[1:8]), ctx=rng.choice(RAND_CTX)))
     return out
 
 
@@ -1081,18 +1103,18 @@ def rand_policy(rng, leaves, depth=0):
         return ps
     rules = []
     for i in range(rng.choice([1, 2, 3, 4])):
-        rules.append(rule("r%d" % rng.randrange(999), rand_tree(rng, rng.choice([1, 2, 3]), leaves) if rng.random() < 0.85 else None,
-                          rng.choice(["permit", "permit", "deny"]), actions=rng.choice([["read"], ["*"], ["write"], ["read", "write"]]),
-                          resource=rng.choice([{"type": "doc"}, {}, {"type": "*"}, {"type": "doc", "id": "d1"}, {"type": ["doc", "img"]}, {"type": "img"}])))
+        rules.append(rule("r%d" % rng.randrange(999), rand_tree(rng, rng.choice([1, 2, 3, 4]), leaves) if rng.random() < 0.9 else None,
+                          rng.choice(["permit", "permit", "deny"]), actions=rng.choice([["read"], ["read"], ["*"], ["write"], ["read", "write"]]),
+                          resource=rng.choice([{"type": "doc"}, {}, {}, {"type": "*"}, {"type": "doc", "id": "d1"}, {"type": ["doc", "img"]}, {"type": "img"}])))
     return {"id": "p%d" % rng.randrange(99), "algorithm": rng.choice(["deny-overrides", "permit-overrides", "first-applicable"]), "rules": rules}
 
 
 def rand_req(rng):
-    return mkreq(sid=rng.choice(IDS[:10]), rtype=rng.choice(["doc", "doc", "img", None, "", 1]), rid=rng.choice(["d1", "x:y", None, 7]),
+    return mkreq(sid=rng.choice(IDS[:10]), rtype=rng.choice(["doc", "doc", "doc", "img", None, "", 1]), rid=rng.choice(["d1", "d1", "x:y", None, 7]),
                  sattrs=rng.choice([{}, {"team": "team:t1"}, {"team": "t1"}, {"team": 5}]),
                  rattrs=rng.choice([{}, {"parent": "folder:f1"}, {"parent": "f2"}, {"parent": 7}]),
-                 ctx=ctx_with_rebac(rng.choice(["<absent>", {}, {"ip": "10.0.0.1"}, {"ip": "10.0.0.1", "z": 1}, None])),
-                 action=rng.choice(["read", "read", "write"]))
+                 ctx=ctx_with_rebac(rng.choice(["<absent>", {}, {"ip": "10.0.0.1"}, {"ip": "10.0.0.1", "z": 1}, {"z": 1, "ip": "10.0.0.1"}, None])),
+                 action=rng.choice(["read", "read", "read", "write"]))
 
 
 def random_cases(chk, n):
@@ -1194,11 +1216,12 @@ def run(chk):
                        "propagation (asyncio tasks, asyncio.to_thread, run_coroutine_threadsafe)"]
     cases = corpus_cases() + f23_cases()
     cases += enumerated(chk)
-    cases += random_cases(chk, 700 if quick else 9000)
-    cases += conc_cases(chk, 40 if quick else 400)
-    cases += slow_cases(chk, 6 if quick else 60)
+    cases += random_cases(chk, 2500 if quick else 40000)
+    cases += conc_cases(chk, 100 if quick else 1500)
+    cases += slow_cases(chk, 8 if quick else 150)
     cases += cond_cases(chk)
     cases += hash_cases(chk)
     chk.exhaustive = True
     check_cases(chk, cases)
     chk.extra["decisions_checked"] = chk.traces
+    chk.extra["f23_switch"] = "datetime and its str() share a memo key" if f23_present() else "datetimes kept apart (repaired)"
